@@ -341,6 +341,7 @@ fn mk_d<D: Key + Copy>(v: Variant, hash: HashT, m: usize) -> Box<dyn WNode> {
         HashT::NoHash => mk_dh::<D, NoHashHasher>(v, m),
         HashT::SimA => mk_dh::<D, SimA>(v, m),
         HashT::SimB => mk_dh::<D, SimB>(v, m),
+        HashT::Ident => mk_dh::<D, IdentHasher>(v, m),
         _ => mk_dh::<D, FnvHasher>(v, m),
     }
 }
@@ -542,7 +543,7 @@ impl Scenario for WStream {
         let variant = *rng.pick(&[Variant::Pmh2, Variant::Pmh3, Variant::Pmh3a, Variant::Sha]);
         let elem = *rng.pick(&[ElemT::U64, ElemT::U32, ElemT::Usize]);
         let shakey = *rng.pick(&[ShaKey::U64, ShaKey::U32, ShaKey::VecU8, ShaKey::Str, ShaKey::VecU16, ShaKey::VecU32]);
-        let hash = *rng.pick(&[HashT::Fnv, HashT::Fnv, HashT::NoHash, HashT::SimA]);
+        let hash = *rng.pick(&[HashT::Fnv, HashT::Fnv, HashT::NoHash, HashT::SimA, HashT::Ident]);
         let big = tier == Tier::Thorough && rng.chance(0.01);
         let m = if big {
             rng.log_range(129, 4096) as usize
